@@ -162,6 +162,22 @@ def _validated_loop(ctx, fn, L, frm, to):
     for (s, d) in fe:
         if not _leads_to_false_only(fn, d):
             info['problems'].append('a rejected interpolated state does not make the checker answer false')
+    # the loop is left only when the iterator is exhausted (an exit of the block that pulls the next index / tests the
+    # counter, i.e. a block every iteration passes before the interpolation) or towards the answer `false`: any other way
+    # out (`break` on a deadline, a cap, a flag) skips iterates that were never put to the checker
+    dom = fn.dominators()
+    for (src, dst) in L.get('exits', []):
+        if fn.blocks[dst]['cleanup'] or fn.blocks[src]['cleanup']:
+            continue
+        if _leads_to_false_only(fn, dst):
+            continue
+        if src in dom.get(ib, ()) and src != ib and _is_range_test(fn, src):
+            continue            # the loop test itself: the iterator is exhausted / the counter reached its bound
+        tk = fn.blocks[dst]['term']['k']
+        if tk == 'other' and not fn.succs(dst):
+            continue            # unreachable / abort
+        info['problems'].append('the interpolation loop can be left at %s before every iterate was put to the validity checker (an exit '
+                                'that is neither the end of the range nor the answer false)' % fn.loc(src))
     # iteration range and the parameter t
     it_terms = None
     idx_terms = None
@@ -175,7 +191,9 @@ def _validated_loop(ctx, fn, L, frm, to):
         if cnt is None:
             info['problems'].append('the interpolation parameter does not depend on the loop index')
             return info
-        den, okc, whyc, k0 = cnt
+        den, okc, whyc, k0, open_end = cnt
+        if open_end:
+            info['open_end'] = True
         info['N'] = den
         info['lo'] = T(('const', str(k0)))
         if not okc:
@@ -211,6 +229,43 @@ def _validated_loop(ctx, fn, L, frm, to):
         info['problems'].append('the last iteration does not evaluate t = 1 (range %s..%s%s, t = %s)' % (
             fmt_terms(lo)[:20], '=' if inclusive else '', fmt_terms(hi)[:40], fmt_terms(a_t)[:60]))
     return _entered_nonzero(fn, L, den, info)
+
+
+def _is_range_test(fn, b):
+    """the switch ending block b decides on the result of Iterator::next (for-loops, `all` / `any` written out) or on a
+    comparison of two INTEGERS (hand-written counters: `while i < n`), never on floats or on the clock"""
+    si = fn.switch_info(b)
+    if si is None:
+        return False
+    terms, _tmap, _other = si
+    if not terms:
+        return False
+    INTS = ('usize', 'u8', 'u16', 'u32', 'u64', 'u128', 'isize', 'i8', 'i16', 'i32', 'i64', 'i128')
+    for n in terms:
+        if n[0] == 'discr' and n[1] and all(m[0] == 'call' and m[1] == 'std::iter::Iterator::next' for m in n[1]):
+            continue
+        if n[0] == 'binop' and n[1] in ('Lt', 'Le', 'Gt', 'Ge', 'Ne', 'Eq'):
+            if any(m[0] == 'call' and any(w in str(m[1]) for w in ('Instant', 'elapsed', 'Duration', 'SystemTime')) for m in walk(T(n))):
+                return False
+            # the compared operands are integer locals / integer constants
+            ok = False
+            for st in fn.blocks[b]['stmts']:
+                if st['k'] == 'assign' and st['rv']['k'] == 'binop' and st['rv']['op'] == n[1]:
+                    tys = []
+                    for o in (st['rv']['a'], st['rv']['b']):
+                        pl = o.get('copy') or o.get('move')
+                        if pl is not None and not pl['p']:
+                            tys.append(fn.b.local_ty(pl['l']))
+                        elif 'const' in o:
+                            tys.append(o['const'].get('ty', ''))
+                        else:
+                            tys.append('?')
+                    if all(t in INTS for t in tys):
+                        ok = True
+            if ok:
+                continue
+        return False
+    return True
 
 
 def _single_def(fn, local):
@@ -314,11 +369,16 @@ def _counter_idiom(fn, L, a_t):
     elif not use_after_inc and op == 'Le':
         ok = k0 <= 1
         why = '' if ok else 'the counter starts at %d: the beginning of the motion is skipped' % k0
+    elif not use_after_inc and op == 'Lt':
+        # i = K0; while i < n { t = i / n; ..; i += 1 }: the interior only; the end point is asked about directly
+        ok = k0 <= 1
+        why = '' if ok else 'the counter starts at %d: the beginning of the motion is skipped' % k0
+        return den_terms, ok, why, k0, True
     else:
         ok = False
         why = 'the last iteration does not evaluate t = 1 (counter tested with %s and used %s its increment)' % (
             '<' if op == 'Lt' else '<=', 'after' if use_after_inc else 'before')
-    return den_terms, ok, why, k0
+    return den_terms, ok, why, k0, False
 
 
 def _entered_nonzero(fn, L, den, info):
@@ -356,6 +416,11 @@ def _entered_nonzero(fn, L, den, info):
             if L['header'] not in fn.reachable(0, removed=frozenset([(sb, other)])):
                 n_ok = True
                 info['K'] = keys[-1]
+    if not n_ok and info.get('open_end'):
+        # a loop over the interior only: with zero or one steps it is empty and the verdict is the one on `to` itself (every true
+        # answer is behind an accepted query on `to`, see the const_true exits): no threshold is needed, K = 0
+        info['K'] = 0
+        n_ok = True
     if not n_ok:
         info['problems'].append('the loop can be entered with zero steps (no dominating test n > K): the checker would answer true without any query')
     return info
@@ -401,31 +466,70 @@ def _range_of(it_terms):
 
 
 def _leads_to_false_only(fn, start):
+    """every way on from `start` ends in the answer `false`.  Boolean locals that were assigned a literal on the way are
+    followed through copies into the switches that test them (`let ok = (1..n).all(..); ok && vc.is_valid(to)`: the
+    rejected iterate makes `ok` false, and the switch on `ok` then answers false)."""
     seen = set()
-    st = [start]
+    st = [(start, ())]
     while st:
-        b = st.pop()
-        if b in seen:
+        b, known = st.pop()
+        key = (b, known)
+        if key in seen:
             continue
-        seen.add(b)
+        seen.add(key)
+        kn = dict(known)
         done = False
-        for s in fn.blocks[b]['stmts']:
-            if s['k'] == 'assign' and s['place']['l'] == 0 and not s['place']['p']:
-                rv = s['rv']
+        for s_ in fn.blocks[b]['stmts']:
+            if s_['k'] != 'assign':
+                continue
+            pl, rv = s_['place'], s_['rv']
+            if pl['l'] == 0 and not pl['p']:
                 if rv['k'] == 'use' and 'const' in rv['op'] and rv['op']['const'].get('val') is False:
                     done = True
+                elif rv['k'] == 'use' and ('copy' in rv['op'] or 'move' in rv['op']):
+                    src = rv['op'].get('copy') or rv['op'].get('move')
+                    if not src['p'] and kn.get(src['l']) is False:
+                        done = True
+                    else:
+                        return False
                 else:
                     return False
                 break
+            if not pl['p']:
+                if rv['k'] == 'use' and 'const' in rv['op'] and isinstance(rv['op']['const'].get('val'), bool):
+                    kn[pl['l']] = rv['op']['const']['val']
+                elif rv['k'] == 'use' and ('copy' in rv['op'] or 'move' in rv['op']):
+                    src = rv['op'].get('copy') or rv['op'].get('move')
+                    if not src['p'] and src['l'] in kn:
+                        kn[pl['l']] = kn[src['l']]
+                    else:
+                        kn.pop(pl['l'], None)
+                elif rv['k'] == 'unop' and rv['op'] == 'Not':
+                    src = rv['a'].get('copy') or rv['a'].get('move')
+                    if src is not None and not src['p'] and src['l'] in kn:
+                        kn[pl['l']] = not kn[src['l']]
+                    else:
+                        kn.pop(pl['l'], None)
+                else:
+                    kn.pop(pl['l'], None)
         if done:
             continue
         t = fn.blocks[b]['term']
-        if t['k'] in ('return', 'switch'):
+        if t['k'] == 'return':
+            return False
+        if t['k'] == 'switch':
+            d = t['discr'].get('copy') or t['discr'].get('move')
+            if d is not None and not d['p'] and d['l'] in kn and len(t['targets']) == 1 and str(t['targets'][0][0]) == '0':
+                nxt = t['otherwise'] if kn[d['l']] else t['targets'][0][1]
+                st.append((nxt, tuple(sorted(kn.items()))))
+                continue
             return False
         if t['k'] == 'call' and t['dest']['l'] == 0:
             return False
-        for s in fn.succs(b):
-            st.append(s)
+        if t['k'] == 'call' and not t['dest']['p']:
+            kn.pop(t['dest']['l'], None)
+        for s2 in fn.succs(b):
+            st.append((s2, tuple(sorted(kn.items()))))
     return True
 
 
